@@ -82,8 +82,32 @@ class VirtualLoop(asyncio.SelectorEventLoop):
     def time(self) -> float:
         return self._vtime
 
+    # --- worker threads ---------------------------------------------------
+    def run_in_executor(self, executor, func, *args):
+        """Work handed to a thread (asyncio.to_thread, getaddrinfo ...) runs in real time: while any of it is pending the
+        loop neither declares a hang nor jumps the virtual clock past it - it waits (really) for the thread."""
+        fut = super().run_in_executor(executor, func, *args)
+        self._executor_jobs = getattr(self, "_executor_jobs", 0) + 1
+
+        def _done(_f):
+            self._executor_jobs -= 1
+        fut.add_done_callback(_done)
+        return fut
+
+    async def shutdown_default_executor(self, *a, **kw):
+        # (the executor is joined from a helper thread: the same kind of real-time wait)
+        self._executor_jobs = getattr(self, "_executor_jobs", 0) + 1
+        try:
+            return await super().shutdown_default_executor(*a, **kw)
+        finally:
+            self._executor_jobs -= 1
+
     def _on_idle(self, timeout):
         """Called by the selector when no fd is ready."""
+        if getattr(self, "_executor_jobs", 0) > 0:
+            import time as _time
+            _time.sleep(0.0005)      # a thread is working: its completion arrives through the self-pipe
+            return
         if timeout is None:
             # nothing scheduled, nothing ready: the program can never progress
             self.hung = True
